@@ -276,6 +276,32 @@ func guardMixin(c *Ctx) {
 						c.S.Decide(ok, "C17", "GUARD-FILLEMPTY", fi.QName()+"/"+exprStr(lx), c.P.Pos(as.Pos()),
 							"filled only when empty in the primary",
 							"store to "+exprStr(lx)+" is not guarded by that field being empty/nil: a value of the primary can be overwritten")
+						// the converse: the fill is reached whenever the field is empty in the primary — no nil/empty test of ANOTHER
+						// part of either document (an enclosing branch or an earlier guard that leaves) stands in its way
+						if ok {
+							_, lsuf := rootedSuffix(info, lx)
+							foreign := ""
+							for _, cd := range c.conds(fi, as) {
+								x, _, isT := core.NilTest(info, cd)
+								if !isT {
+									x, _, isT = core.EmptyTest(info, cd)
+								}
+								if !isT {
+									continue
+								}
+								root, suf := rootedSuffix(info, x)
+								if root == nil || suf == "" || lsuf == "" || !c.P.Locals(fi).Params[root] {
+									continue
+								}
+								if suf == lsuf || strings.HasPrefix(lsuf, suf+".") || strings.HasPrefix(suf, lsuf+".") {
+									continue
+								}
+								foreign = exprStr(x)
+							}
+							c.S.Decide(foreign == "", "C17", "GUARD-FILLEMPTY", fi.QName()+"/"+exprStr(lx)+"/reached", c.P.Pos(as.Pos()),
+								"the fill depends on no other part of either document being present",
+								"the fill of "+exprStr(lx)+" is reached only under a nil/empty test of "+foreign+", another part of the documents: a mixin that lacks that part never contributes "+exprStr(lx))
+						}
 					}
 				}
 			}
@@ -1660,4 +1686,27 @@ func (c *Ctx) returnsOwnListParam(fi *core.FuncInfo) bool {
 		return true
 	})
 	return n > 0 && all
+}
+
+// rootedSuffix: for a selector chain x.A.B (through parentheses, * and &) the object of x and ".A.B".
+func rootedSuffix(info *types.Info, e ast.Expr) (types.Object, string) {
+	suf := ""
+	for {
+		switch v := core.Unparen(e).(type) {
+		case *ast.SelectorExpr:
+			suf = "." + v.Sel.Name + suf
+			e = v.X
+		case *ast.StarExpr:
+			e = v.X
+		case *ast.UnaryExpr:
+			if v.Op != token.AND {
+				return nil, ""
+			}
+			e = v.X
+		case *ast.Ident:
+			return core.ObjOf(info, v), suf
+		default:
+			return nil, ""
+		}
+	}
 }
